@@ -70,7 +70,7 @@ pub fn wsched_for(len: usize) -> BoxedStrategy<WSched> { if len <= 4096 { wsched
 
 pub fn fkind_strategy() -> impl Strategy<Value = FKind> { (0usize..FKINDS.len()).prop_map(|i| FKINDS[i]) }
 pub fn fault_strategy(max_k: usize) -> impl Strategy<Value = Fault> {
-    (prop_oneof![Just(Side::Read), Just(Side::Write), Just(Side::Flush)], 1..=max_k.max(1), fkind_strategy()).prop_map(|(side, k, kind)| Fault { side, k, kind })
+    (prop_oneof![Just(Side::Read), Just(Side::Write), Just(Side::Flush)], prop_oneof![2 => 1usize..=6, 2 => 1usize..=max_k.clamp(1, 40), 1 => 1usize..=max_k.max(1)], fkind_strategy()).prop_map(|(side, k, kind)| Fault { side, k, kind })
 }
 
 /// Passwords as byte strings: empty, ASCII, multi-byte UTF-8, raw bytes, around the HMAC block size, long.
